@@ -32,14 +32,14 @@ checks.update({
  "C18": dict(engine="twin+sched", text="Middleware vs twin store over all operation sequences to the depth bound (pass-through equivalence, checkpoint metadata, foreign Extensions refused, drop/skip accounting) and all schedules up to the preemption bound with a blocked ReportFn (StoreLogs never blocked; delivered + dropped = checkpoints; SkippedRange names the gap).", ref="4/C18", note=cl_note + " " + sched_note),
 })
 checks.update({
- "C09": dict(engine="format", text="Independent encoder/decoder (README only) reproduces every segment file byte for byte after every step of every sequence to the depth bound and decodes it back to the model; metadata record checked for the documented JSON shape; golden directories written by the pinned version open with identical contents and stay independently decodable after the current tree appends to them.", ref="4/C09, 3.7", note="Trusted base: verif/fmtspec (independent format implementation), the golden fixtures (written by the pinned commit with tools/goldengen), bbolt for reading the fixture metadata, the reference model."),
- "C10": dict(engine="fault", text="Every I/O step of short workloads fails in turn (three flavours, transient and persistent), the workload continues (retry, append, stable write), faults are cleared and the WAL is reopened; acknowledged entries must be intact in process and after reopen, failed appends invisible, failed calls all-or-nothing after reopen.", ref="4/C10, 3.2", note=crash_note),
+ "C09": dict(engine="format", text="Independent encoder/decoder (README only) reproduces every segment file byte for byte after every step of every sequence to the depth bound and decodes it back to the model; metadata record checked for the documented JSON shape; golden directories written by the pinned version open with identical contents and stay independently decodable after the current tree appends to them; the same end-state decoding after every recovery of short crash workloads and after every faulted run of the fault engine.", ref="4/C09, 3.6", note="Trusted base: verif/fmtspec (independent format implementation), the golden fixtures (written by the pinned commit with tools/goldengen), bbolt for reading the fixture metadata, the reference model."),
+ "C10": dict(engine="fault", text="Every I/O step of short workloads fails in turn (three flavours, transient and persistent), the workload continues (retry, append, stable write), faults are cleared and the WAL is reopened; acknowledged entries must be intact in process and after reopen, failed appends invisible, failed calls all-or-nothing after reopen; at every acknowledgement the bytes written are fsynced and a newly created file has had a successful directory fsync; after the run every whole-write power-loss image opens and holds what was acknowledged.", ref="4/C10, 3.2", note=crash_note),
 })
 checks.update({
  "C11": dict(engine="mut", text="Full single/pair mutation menu over small base directories and the metadata record, each mutant opened, read, dumped and closed by the real code: no panic, termination, allocation bounded by directory size + MaxEntrySize; damaged entry encodings must decode to an error; missing/short/foreign-header sealed segments must fail Open; a failed Open on the real stack must not leave the directory locked.", ref="4/C11, 3.6", note=enum_note),
 })
 checks.update({
- "C07": dict(engine="trace", text="All workloads to the depth bound run on the production fs + bbolt under strace; a monitor automaton checks on every path: no StoreLogs ack with un-fsynced segment writes, directory fsync before the first ack into a new segment, directory fsync after every unlink, O_EXCL + preallocation + zero fill, tmp/rename/dir-fsync creation of wal-meta.db, synced metadata at every ack; and the simulated OS's event sequence equals the kernel's.", ref="4/C07, 3.5", note="Trusted base: strace and the kernel's view of the process, the monitor automaton, the marker protocol of the traced child."),
+ "C07": dict(engine="trace", text="All workloads to the depth bound run on the production fs + bbolt under strace; a monitor automaton checks on every path: no StoreLogs ack with un-fsynced segment writes, directory fsync before the first ack into a new segment, directory fsync after every unlink, O_EXCL + preallocation + zero fill, tmp/rename/dir-fsync creation of wal-meta.db, synced metadata at every ack; and the simulated OS's event sequence equals the kernel's; on the simulated OS the same acknowledgement rules are evaluated under every injected failure (fault engine), with what Create hands out and Filer.Delete under failing steps.", ref="4/C07, 3.4, 3.2", note="Trusted base: strace and the kernel's view of the process, the monitor automaton, the marker protocol of the traced child."),
 })
 technique = {
  "trace": "exhaustive workload enumeration with a trace-monitor automaton over kernel-level system-call traces, plus trace conformance of the simulated OS",
